@@ -796,8 +796,8 @@ fn sub_attr() -> Sub {
     })
 }
 
-pub fn subs(tier: Tier) -> Vec<Sub> {
-    vec![sub_aranges(tier), sub_pub(tier), sub_tables(), sub_attr()]
+pub fn subs(_cli_tier: Tier) -> Vec<Sub> {
+    vec![sub_aranges(Tier::Thorough), sub_pub(Tier::Thorough), sub_tables(), sub_attr()] // cheap: thorough bounds in both tiers
 }
 
 pub fn required() -> Vec<&'static str> {
